@@ -404,15 +404,23 @@ class SepWorld(BaseWorld):
         # achieved partition coefficients, up to the common factor introduced by forced chemicals
         idx = [pk.pos[c] for c in IDs]
         if 0 < phi < 1 and not reported and t.sum() > 0 and b.sum() > 0 and ev['phi'] is None:
-            ti, bi = t[idx], b[idx]
+            ti, bi, fi = t[idx], b[idx], f0[idx]
             ok = (ti > 1e-12) & (bi > 1e-12)
-            if ok.sum() >= 1:
+            if ok.sum() >= 2:
                 y = ti / t.sum()
                 x = bi / b.sum()
                 ratio = (y[ok] / x[ok]) / K[ok]
-                if ratio.max() / ratio.min() - 1 > 1e-6:
-                    self.fail('partition-K', f'achieved y/x over K is {ratio.tolist()} (not a common factor)',
-                              {'event': ev, 'top': t.tolist(), 'bottom': b.tolist()})
+                # top = feed - bottom is a difference: a component that ends almost entirely in one outlet carries
+                # a relative rounding error of about eps * feed / (small outlet flow)
+                tol = 1e-9 + 1e-13 * fi[ok] / np.minimum(ti[ok], bi[ok])
+                keep = tol < 1e-7
+                if keep.sum() >= 2:
+                    r, tl = ratio[keep], tol[keep]
+                    ref = int(np.argmin(tl))
+                    dev = np.abs(r / r[ref] - 1)
+                    if (dev > 1e-7 + tl + tl[ref]).any():
+                        self.fail('partition-K', f'achieved y/x over K is {ratio.tolist()} (not a common factor)',
+                                  {'event': ev, 'top': t.tolist(), 'bottom': b.tolist()})
         return ['ok', float(phi).hex()]
 
     def do_phase_split(self, ev):
